@@ -223,9 +223,16 @@ Fixpoint recover_agrees (fs : list folder) (ns : list Z) : bool :=
   | _, _ => true
   end.
 
+(* the graph holds one EmptyFile bit per entry without data (the "emptyfile" key FilesInfo._read stores with each
+   such entry; tools/harness/hdr.py reads the vector off those keys) *)
+Definition ef_aligned (h : header) : bool :=
+  zlen (h_emptyfiles h) =? Z.of_nat (Assign.nempty (match h_files h with Some fl => fl | None => [] end)).
+
 (* a base graph whose sections describe one another: one count per folder, one size / digest slot per
-   sub-stream, one sub-stream per entry with data; without streams no entry has data *)
+   sub-stream, one sub-stream per entry with data, one EmptyFile bit per entry without; without streams no
+   entry has data *)
 Definition base_ok (h : header) : bool :=
+  ef_aligned h &&
   match h_streams h with
   | None => match h_files h with Some fl => forallb e_emptystream fl | None => true end
   | Some st =>
